@@ -120,18 +120,21 @@ Proof. intros Ho. unfold init. apply pg_start_ops; auto. split; [cbn; lia|split;
 (* ------------------------------------------------------------------ *)
 (* GM: changes that do not touch the geometry *)
 
-Ltac gm_same G := eapply gm_ext; [..|exact G]; [reflexivity|intros; reflexivity].
+Ltac gm_same G := eapply gm_ext; [..|exact G]; first [reflexivity|intros; reflexivity].
 
 Lemma live_false s i : live s false i <-> inflight s i.
 Proof. unfold live. split; [intros [H|(H & _)]; [exact H|discriminate]|auto]. Qed.
 
 (* the endpoint of a piece of the caller's code: a pc is set *)
 Lemma ginv_at cfg s p :
-  PgOk s -> (alldone (mt s) = false -> relphase (awake p) = false -> GM cfg s (pbof (set_cpc p s)) /\ PcGeo cfg (set_cpc p s)) ->
+  awake p <> CInitSeq -> PgOk s ->
+  (alldone (mt s) = false -> relphase (awake p) = false -> GM cfg s (pbof (set_cpc p s)) /\ PcGeo cfg (set_cpc p s)) ->
   GInv cfg (set_cpc p s).
 Proof.
-  intros N H. split; [apply pg_pc; exact N|]. intros Ha Hr. destruct (H Ha Hr) as (G & P). split; auto.
-  eapply gm_ext; [..|exact G]; [reflexivity|intros; reflexivity].
+  intros Hp N H. split; [apply pg_pc; exact N|]. cbn [mt cl set_cpc set_cl cl_pc c_pc]. intros Ha Hr. destruct (H Ha Hr) as (G & P).
+  assert (X : GM cfg (set_cpc p s) (pbof (set_cpc p s)) /\ PcGeo cfg (set_cpc p s)).
+  { split; auto. eapply gm_ext; [..|exact G]; first [reflexivity|intros; reflexivity]. }
+  destruct (awake p); try exact X. contradiction.
 Qed.
 
 Lemma ginv_vac cfg s : PgOk s -> alldone (mt s) = true -> GInv cfg s.
@@ -147,14 +150,14 @@ Lemma prepare_job_mt cfg s n e :
   let s1 := prepare_job cfg s n e in let m := mt s in let m1 := mt s1 in
   let endf := match e with EEnd => true | _ => false end in
   done m1 = done m /\ next m1 = next m /\ ready m1 = ready m /\ alldone m1 = alldone m /\
-  rcap m1 = rcap m /\ target m1 = target m /\ ptarget m1 = ptarget m /\ wsize m1 = wsize m /\ lap m1 = lap m /\
+  rcap m1 = rcap m /\ target m1 = target m /\ ptarget m1 = ptarget m /\ wsize m1 = wsize m /\ lap m1 = lap m /\ ldm m1 = ldm m /\
   rpos m1 = rpos m + n /\ ihas m1 = false /\ istart m1 = 0 /\ ifill m1 = 0 /\
   psize m1 = (if endf then 0 else N.min n (ptarget m)) /\
   pstart m1 = (if endf then 0 else istart m + n - N.min n (ptarget m)) /\
   ended m1 = (ended m || endf).
 Proof.
   unfold prepare_job. cbn zeta.
-  destruct e; cbn [andb]; try destruct (next (mt s) =? 0); cbn [mt set_mt set_job set_jobs mt_buf mt_ring mt_cksum done next ready alldone rcap target ptarget wsize lap
+  destruct e; cbn [andb]; try destruct (next (mt s) =? 0); cbn [mt set_mt set_job set_jobs mt_buf mt_ring mt_cksum done next ready alldone rcap target ptarget wsize lap ldm
     rpos ihas istart ifill psize pstart ended]; rewrite ?orb_false_r, ?orb_true_r; repeat split; reflexivity.
 Qed.
 
@@ -178,10 +181,10 @@ Lemma gm_prepare_job cfg s e2 :
   KB cfg s -> next (mt s) < done (mt s) + Mr cfg -> GM cfg s false -> (ifill (mt s) = 0 -> e2 = EEnd) ->
   GM cfg (prepare_job cfg s (ifill (mt s)) e2) true.
 Proof.
-  intros K Hlt [B Jg Mo Fw Fs _ Ne] Hcond.
+  intros K Hlt [B Jg Mo Fw Fs _ Ne Ch Wn _] Hcond.
   set (n := ifill (mt s)) in *. set (s1 := prepare_job cfg s n e2).
   pose proof (prepare_job_mt cfg s n e2) as Hm. cbn zeta in Hm. fold s1 in Hm.
-  destruct Hm as (Ed & En & Erd & Ead & Ec & Et & Ept & Ew & El & Er & Eih & Eis & Eif & Eps & Epst & Een).
+  destruct Hm as (Ed & En & Erd & Ead & Ec & Et & Ept & Ew & El & Eld & Er & Eih & Eis & Eif & Eps & Epst & Een).
   assert (Hk : (slot cfg (next (mt s)) < length (jobs s))%nat) by (rewrite (b_len _ _ K); apply slot_lt).
   pose proof (prepare_job_new cfg s n e2 Hk) as Hnew. cbn zeta in Hnew. fold s1 in Hnew. destruct Hnew as (N1 & N2 & N3 & N4 & N5 & N6).
   assert (Hold : forall i, inflight s i -> J cfg s1 i = J cfg s i).
@@ -189,7 +192,7 @@ Proof.
   assert (Hin : forall i, inflight s1 i <-> inflight s i) by (intros; unfold inflight; rewrite Ed, En; tauto).
   assert (Hlv : forall i, live s1 true i -> inflight s i \/ i = next (mt s)).
   { intros i [H|(_ & H)]; [left; apply Hin; auto|right; congruence]. }
-  destruct B as [b1 b2 b3 b4 b5 b6 b7 b8].
+  destruct B as [b1 b2 b3 b4 b5 b6 b7 b8 b9].
   assert (Hn : n <= target (mt s) /\ (0 < n -> ihas (mt s) = true)).
   { destruct (ihas (mt s)) eqn:Eh; [destruct (b7 eq_refl) as (_ & _ & X); split; auto|unfold n; rewrite (b8 eq_refl); split; lia]. }
   destruct Hn as (Hn1 & Hn2).
@@ -210,6 +213,7 @@ Proof.
     + rewrite Er, Ec. destruct (N.eq_dec n 0) as [Hz|Hz]; [lia|]. destruct (Hih ltac:(lia)). lia.
     + rewrite Eih. discriminate.
     + intros _. exact Eif.
+    + intros _. exact Eih.
   - intros i Hi. destruct (Hlv i Hi) as [Hi0| ->].
     + rewrite (Hold i Hi0). destruct (Jg i (proj2 (live_false s i) Hi0)) as [A Bq C D F G H].
       constructor.
@@ -246,6 +250,35 @@ Proof.
     + rewrite (Hold i Hi0). apply Ne; auto. apply live_false; auto.
     + unfold J. fold s1. rewrite N2. destruct (N.eq_dec n 0) as [Ez|Ez]; [|lia].
       specialize (Hcond Ez). subst e2. discriminate.
+  - (* Chain *)
+    unfold Chain. rewrite Een. intros He'. apply orb_false_elim in He'. destruct He' as (He & Hef).
+    assert (Hnpos : 0 < n).
+    { destruct (N.eq_dec n 0) as [Ez|Ez]; [|lia]. specialize (Hcond Ez). subst e2. discriminate. }
+    destruct (Hih Hnpos) as (Hi1 & Hi2). destruct (Ch He) as (C1 & C2).
+    assert (Hnew : forall L e, ContC (mt s) L e -> Cont (mt s1) L e (J cfg s1 (next (mt s)))).
+    { intros L e [(A1 & A2)|(A1 & A2 & A3)]; unfold Cont, J; fold s1; rewrite N1, N4, N6, Ec, Et; [left|right]; repeat split; auto; congruence. }
+    split.
+    + intros i Hi Hi'. destruct (Hlv i Hi) as [Hi0|Ei]; destruct (Hlv (i + 1) Hi') as [Hi0'|Hi0'].
+      * rewrite (Hold i Hi0), (Hold (i + 1) Hi0'). eapply cont_ext; [exact Ec|exact Et|reflexivity..|]. apply C1; apply live_false; auto.
+      * rewrite (Hold i Hi0), Hi0'. apply Hnew. apply C2; [apply live_false; auto|]. rewrite Hi0'. intros X. apply live_false in X. destruct X. lia.
+      * destruct Hi0' as (_ & X). lia.
+      * lia.
+    + intros i Hi Hn'. destruct (Hlv i Hi) as [Hi0|Ei].
+      * exfalso. apply Hn'. destruct Hi0 as (A1 & A2). destruct (N.eq_dec (i + 1) (next (mt s))) as [E|E]; [right; split; [reflexivity|congruence]|left; apply Hin; split; lia].
+      * rewrite Ei. unfold J, jend. fold s1. rewrite N1, N2, N6. left. rewrite El, Er. split; [reflexivity|lia].
+  - (* WG *)
+    unfold WG in *. change (sr s1) with (sr s). rewrite Een, Eld, Ew, El, Ec, Et, Ept, En. intros Hl He'. apply orb_false_elim in He'. destruct He' as (He & Hef).
+    assert (Hnpos : 0 < n).
+    { destruct (N.eq_dec n 0) as [Ez|Ez]; [|lia]. specialize (Hcond Ez). subst e2. discriminate. }
+    destruct (Hih Hnpos) as (Hi1 & Hi2).
+    specialize (Wn Hl He). destruct (s_w (sr s)) as [[[el eh] pl] ph]. destruct Wn as (W1 & W2 & W3 & W4).
+    split; [exact W1|]. split; [exact W2|]. split; [exact W3|].
+    destruct W4 as [W4|(Lp & L1 & L2 & L3 & L4 & L5)]; [left; exact W4|right]. exists Lp. split; [exact L1|]. split; [exact L2|]. split; [exact L3|]. split.
+    + intros Hi. destruct (Hlv _ Hi) as [Hi0|Hi0].
+      * rewrite (Hold _ Hi0). eapply cont_ext; [exact Ec|exact Et|reflexivity..|]. apply L4. apply live_false; auto.
+      * rewrite Hi0. specialize (L5 eq_refl Hi0). destruct L5 as [(A1 & A2)|(A1 & A2 & A3)]; unfold Cont, J; fold s1; rewrite N1, N4, N6; [left|right]; repeat split; auto; congruence.
+    + discriminate.
+  - intros _ X. congruence.
 Qed.
 
 Lemma pg_prepare_job cfg s n e : PgOk s -> PgOk (prepare_job cfg s n e).
@@ -263,21 +296,21 @@ Lemma gi_create_job cfg s e2 :
 Proof.
   intros M N Ha G Hcond. unfold create_job.
   destruct (done (mt s) + mask cfg <? next (mt s)) eqn:Efull.
-  { apply ginv_at; auto. intros _ _. unfold pbof. cbn. rewrite orb_false_r. split; [exact G|exact I]. }
+  { apply ginv_at; [discriminate|..]; auto. intros _ _. unfold pbof. cbn. rewrite orb_false_r. split; [exact G|exact I]. }
   apply N.ltb_ge in Efull. pose proof (mask_Mr cfg) as HM.
   assert (Hlt : next (mt s) < done (mt s) + Mr cfg) by lia.
   destruct (ready (mt s)) eqn:Er.
-  { apply ginv_at; auto. intros _ _. unfold pbof. cbn. rewrite Er. split; [exact G|exact I]. }
+  { apply ginv_at; [discriminate|..]; auto. intros _ _. unfold pbof. cbn. rewrite Er. split; [exact G|exact I]. }
   pose proof (gm_prepare_job cfg s e2 (m_kb _ _ M) Hlt G (Hcond eq_refl)) as G1.
   set (s1 := prepare_job cfg s (ifill (mt s)) e2) in *.
   assert (N1 : PgOk s1) by (apply pg_prepare_job; auto).
   assert (Hk : (slot cfg (next (mt s)) < length (jobs s1))%nat).
   { unfold s1, prepare_job. cbn zeta. cbn [jobs set_mt set_job set_jobs]. rewrite upd_length. rewrite (b_len _ _ (m_kb _ _ M)). apply slot_lt. }
   destruct ((ifill (mt s) =? 0) && (0 <? next (mt s))).
-  - apply ginv_at; [eapply pg_ext; [..|exact N1]; reflexivity|]. intros _ _. unfold pbof. cbn [awake set_cpc set_cl cl_pc c_pc cl]. rewrite orb_true_r.
-    split; [|exact I]. eapply gm_ext; [..|exact G1]; [reflexivity|].
+  - apply ginv_at; [discriminate|..]; [eapply pg_ext; [..|exact N1]; reflexivity|]. intros _ _. unfold pbof. cbn [awake set_cpc set_cl cl_pc c_pc cl]. rewrite orb_true_r.
+    split; [|exact I]. eapply gm_ext; [..|exact G1]; [reflexivity|reflexivity|].
     intros k. rewrite getj_upd_eq_dec by exact Hk. destruct (Nat.eq_dec _ _) as [<-|]; reflexivity.
-  - apply ginv_at; auto. intros _ _. unfold pbof. cbn [awake set_cpc set_cl cl_pc c_pc cl]. rewrite orb_true_r. split; [exact G1|exact I].
+  - apply ginv_at; [discriminate|..]; auto. intros _ _. unfold pbof. cbn [awake set_cpc set_cl cl_pc c_pc cl]. rewrite orb_true_r. split; [exact G1|exact I].
 Qed.
 
 (* ------------------------------------------------------------------ *)
@@ -306,7 +339,7 @@ Proof.
     + change (ready (mt s) = false -> ifill (mt s) = 0 -> e2 = EEnd). intros Er Ei.
       change (mt s') with (mt s) in Eb. rewrite Er, Ei, Ht0 in Eb. cbn in Eb. rewrite andb_false_r in Eb. cbn in Eb.
       destruct e2; cbn in Eb; auto; discriminate.
-  - apply ginv_at; auto. intros Ha _. unfold pbof. cbn. rewrite orb_false_r. split; [|exact I]. apply gm_set_cl. apply G. exact Ha.
+  - apply ginv_at; [discriminate|..]; auto. intros Ha _. unfold pbof. cbn. rewrite orb_false_r. split; [|exact I]. apply gm_set_cl. apply G. exact Ha.
 Qed.
 
 Lemma first_hit_le l lo hi h : first_hit l lo hi = Some h -> lo < h /\ h <= hi.
@@ -326,17 +359,21 @@ Lemma gm_fill cfg s pb toLoad :
   ihas (mt s) = true -> toLoad <= target (mt s) - ifill (mt s) -> GM cfg s pb ->
   GM cfg (set_mt (mt_buf (rpos (mt s)) true (istart (mt s)) (ifill (mt s) + toLoad) (pstart (mt s)) (psize (mt s)) (lap (mt s)) (iabs (mt s)) (mt s)) s) pb.
 Proof.
-  intros Hh Hl [B Jg Mo Fw Fs Pr Ne].
+  intros Hh Hl [B Jg Mo Fw Fs Pr Ne Ch Wn Wf].
   constructor.
-  - destruct B as [b1 b2 b3 b4 b5 b6 b7 b8]. constructor; cbn [mt set_mt mt_buf rcap target ptarget psize pstart rpos ihas istart ifill]; auto.
+  - destruct B as [b1 b2 b3 b4 b5 b6 b7 b8 b9]. constructor; cbn [mt set_mt mt_buf rcap target ptarget psize pstart rpos ihas istart ifill ended]; auto.
     + intros _. destruct (b7 Hh) as (A & B' & C). repeat split; auto. lia.
     + discriminate.
+    + intros X. specialize (b9 X). congruence.
   - intros i Hi. eapply jgeo_ext; [reflexivity|..|apply Jg; exact Hi]; reflexivity.
   - exact Mo.
   - exact Fw.
   - intros _. exact (Fs Hh).
   - intros X. destruct (Pr X) as (P1 & _). congruence.
   - exact Ne.
+  - eapply chain_ext; [intros i H; exact H|intros i _ H; exact H|reflexivity..|intros i _; repeat split|exact Ch].
+  - eapply wg_ext; [intros i H; exact H|reflexivity..|intros i _; repeat split|exact Wn].
+  - intros Hld _. exact (Wf Hld Hh).
 Qed.
 
 Lemma gi_fill_phase cfg s :
@@ -356,21 +393,25 @@ Qed.
 
 (* ZSTDMT_tryGetInputRange hands out [roundBuff.pos, roundBuff.pos + targetSectionSize) *)
 Lemma gm_hand_out cfg s :
-  ihas (mt s) = false -> rpos (mt s) + target (mt s) <= rcap (mt s) ->
+  ihas (mt s) = false -> ended (mt s) = false -> rpos (mt s) + target (mt s) <= rcap (mt s) ->
   (forall i, inflight s i -> unfin (J cfg s i) -> VF (mt s) + target (mt s) + j_psize (J cfg s i) <= vs (mt s) (J cfg s i) + rcap (mt s)) ->
+  (ldm (mt s) = true -> overlap_win (rpos (mt s), target (mt s)) (s_w (sr s)) = false) ->
   GM cfg s false ->
   GM cfg (set_mt (mt_buf (rpos (mt s)) true (rpos (mt s)) 0 (pstart (mt s)) (psize (mt s)) (lap (mt s)) (iabs (mt s)) (mt s)) s) false.
 Proof.
-  intros Hh Hr Hs [B Jg Mo Fw Fs Pr Ne].
+  intros Hh He Hr Hs Hwf [B Jg Mo Fw Fs Pr Ne Ch Wn _].
   constructor.
-  - destruct B as [b1 b2 b3 b4 b5 b6 b7 b8]. constructor; cbn [mt set_mt mt_buf rcap target ptarget psize pstart rpos ihas istart ifill]; auto;
-      try discriminate. intros _. repeat split; auto. lia.
+  - destruct B as [b1 b2 b3 b4 b5 b6 b7 b8 b9]. constructor; cbn [mt set_mt mt_buf rcap target ptarget psize pstart rpos ihas istart ifill ended]; auto;
+      try discriminate; try (intros X; congruence). intros _. repeat split; auto. lia.
   - intros i Hi. eapply jgeo_ext; [reflexivity|..|apply Jg; exact Hi]; reflexivity.
   - exact Mo.
   - exact Fw.
   - intros _. exact Hs.
   - discriminate.
   - exact Ne.
+  - eapply chain_ext; [intros i H; exact H|intros i _ H; exact H|reflexivity..|intros i _; repeat split|exact Ch].
+  - eapply wg_ext; [intros i H; exact H|reflexivity..|intros i _; repeat split|exact Wn].
+  - intros Hld _. exact (Hwf Hld).
 Qed.
 
 (* from what the scan of the jobs has established and the range test: the new buffer collides with no unfinished job *)
@@ -394,9 +435,10 @@ Proof. apply useok_ext; [reflexivity|intros; reflexivity]. Qed.
 Lemma gi_hand_out cfg s :
   Mid cfg s -> ended (mt s) = false -> alldone (mt s) = false -> PgOk s -> ready (mt s) = false -> GM cfg s false ->
   ihas (mt s) = false -> rpos (mt s) + target (mt s) <= rcap (mt s) -> UseOk cfg s (c_use (cl s)) ->
-  overlap (rpos (mt s), target (mt s)) (c_use (cl s)) = false -> GInv cfg (hand_out cfg s).
+  overlap (rpos (mt s), target (mt s)) (c_use (cl s)) = false ->
+  (ldm (mt s) = true -> overlap_win (rpos (mt s), target (mt s)) (s_w (sr s)) = false) -> GInv cfg (hand_out cfg s).
 Proof.
-  intros M He Ha N Er G Hh Hr U Ho. unfold hand_out. apply gi_fill_phase; [|exact He|exact Ha| |].
+  intros M He Ha N Er G Hh Hr U Ho Hwf. unfold hand_out. apply gi_fill_phase; [|exact He|exact Ha| |].
   - eapply mid_ext; [..|exact M]; first [reflexivity | right; exact He].
   - pg_same N.
   - cbn [mt set_mt mt_buf ready]. rewrite Er. apply gm_hand_out; auto. apply (use_strong cfg s _ G U Hr Ho).
@@ -408,9 +450,9 @@ Lemma gi_after_wrap cfg s :
 Proof.
   intros M He Ha N Er G Hh Hr U. unfold after_wrap.
   destruct (overlap _ _) eqn:Eo; [apply gi_fill_phase; auto; rewrite Er; exact G|].
-  destruct (ldm (mt s)); [|apply gi_hand_out; auto].
-  apply ginv_at; auto. intros _ _. unfold pbof. cbn [awake set_cpc set_cl cl_pc c_pc cl mt]. rewrite Er. split; [exact G|].
-  unfold PcGeo. cbn [awake set_cpc set_cl cl_pc c_pc cl mt c_use]. refine (conj Hh (conj Er (conj _ (conj _ Eo)))); [apply useok_set_cpc; exact U|lia].
+  destruct (ldm (mt s)) eqn:Eldm; [|apply gi_hand_out; auto; intros X; congruence].
+  apply ginv_at; [discriminate|..]; auto. intros _ _. unfold pbof. cbn [awake set_cpc set_cl cl_pc c_pc cl mt]. rewrite Er. split; [exact G|].
+  unfold PcGeo. cbn [awake set_cpc set_cl cl_pc c_pc cl mt c_use]. refine (conj Hh (conj Er (conj _ (conj (conj _ Eldm) Eo)))); [apply useok_set_cpc; exact U|lia].
 Qed.
 
 (* the prefix is moved to the start of the buffer: roundBuff.pos = prefix size, one more lap *)
@@ -420,8 +462,8 @@ Lemma gm_move_prefix cfg s :
   let s' := set_mt (mt_buf (psize (mt s)) (ihas (mt s)) (istart (mt s)) (ifill (mt s)) 0 (psize (mt s)) (lap (mt s) + 1) (iabs (mt s)) (mt s)) s in
   GM cfg s' false /\ UseOk cfg s' (c_use (cl s)) /\ rpos (mt s') + target (mt s') <= rcap (mt s').
 Proof.
-  intros G Hh Hw U Ho s'. pose proof G as [B Jg Mo Fw Fs Pr Ne]. pose proof (cap_bounds _ _ B) as (Hc1 & _).
-  destruct B as [b1 b2 b3 b4 b5 b6 b7 b8].
+  intros G Hh Hw U Ho s'. pose proof G as [B Jg Mo Fw Fs Pr Ne Ch Wn Wf]. pose proof (cap_bounds _ _ B) as (Hc1 & _).
+  destruct B as [b1 b2 b3 b4 b5 b6 b7 b8 b9].
   assert (Hvf : VF (mt s') = lap (mt s) * rcap (mt s) + rcap (mt s) + psize (mt s)) by (unfold VF; cbn; lia).
   assert (Hvfle : VF (mt s) <= lap (mt s) * rcap (mt s) + rcap (mt s)) by (unfold VF; lia).
   assert (Hvs : forall j, vs (mt s') j = vs (mt s) j) by reflexivity.
@@ -434,9 +476,13 @@ Proof.
     destruct (N.lt_trichotomy i d) as [Hlt|[->|Hgt]]; [destruct (Sc i Hi Hlt Hu)|nia|].
     assert (Hsi : 0 < j_size (J cfg s i)) by (unfold unfin in Hu; lia).
     pose proof (Mo d i (proj2 (live_false s d) Hd) (proj2 (live_false s i) Hi) Hgt Sz Hsi). nia. }
+  assert (Hcc : forall L e, ContC (mt s) L e -> ContC (mt s') L e).
+  { intros L e [(A1 & A2)|(A1 & A2 & A3)]; unfold ContC; cbn [mt set_mt mt_buf lap rpos psize rcap target s'].
+    - right. repeat split; auto; lia.
+    - exfalso. lia. }
   split; [|split].
   - constructor.
-    + constructor; cbn [mt set_mt mt_buf rcap target ptarget psize pstart rpos ihas istart ifill s']; auto; try lia.
+    + constructor; cbn [mt set_mt mt_buf rcap target ptarget psize pstart rpos ihas istart ifill ended s']; auto; try lia.
     + intros i Hi. apply live_false in Hi. destruct (Jg i (proj2 (live_false s i) Hi)) as [A Bq C D F Gh H].
       change (J cfg s' i) with (J cfg s i).
       constructor.
@@ -452,6 +498,13 @@ Proof.
     + intros X. change (ihas (mt s) = true) in X. congruence.
     + discriminate.
     + exact Ne.
+    + intros He. destruct (Ch He) as (C1 & C2). split; [exact C1|]. intros i Hi Hn. apply Hcc. apply C2; auto.
+    + unfold WG in *. change (sr s') with (sr s). intros Hl He. specialize (Wn Hl He). destruct (s_w (sr s)) as [[[el eh] pl] ph].
+      destruct Wn as (W1 & W2 & W3 & W4). split; [exact W1|]. split; [exact W2|]. split; [exact W3|].
+      destruct W4 as [W4|(Lp & L1 & L2 & L3 & L4 & L5)]; [left; exact W4|right]. exists Lp.
+      split; [change (Lp <= lap (mt s) + 1); lia|]. split; [exact L2|]. split; [exact L3|]. split; [exact L4|].
+      intros Hp Hx. apply Hcc. apply L5; auto.
+    + intros _ X. change (ihas (mt s) = true) in X. congruence.
   - destruct U as [U|(d & Hd & Sc & Sz & Eu & Fd)]; [left; exact U|].
     right. exists d. split; [exact Hd|]. split; [exact Sc|]. split; [exact Sz|]. split; [exact Eu|].
     change (VF (mt s') + j_psize (J cfg s d) <= vs (mt s) (J cfg s d) + rcap (mt s)).
@@ -486,9 +539,9 @@ Proof.
   destruct (rcap (mt s) - rpos (mt s) <? target (mt s)) eqn:Ew.
   - apply N.ltb_lt in Ew.
     destruct (overlap (0, psize (mt s)) u) eqn:Eo; [apply gi_fill_phase; auto; change (ready (mt s0)) with (ready (mt s)); rewrite Er; exact G0|].
-    destruct (ldm (mt s)); [|apply gi_move_prefix; auto].
-    apply ginv_at; auto. intros _ _. unfold pbof. cbn [awake set_cpc set_cl cl_pc c_pc cl mt s0]. rewrite Er. split; [exact G0|].
-    unfold PcGeo. cbn [awake set_cpc set_cl cl_pc c_pc cl mt c_use s0 cl_use]. refine (conj Hh (conj Er (conj _ (conj Ew Eo)))). apply useok_set_cpc. exact U0.
+    destruct (ldm (mt s)) eqn:Eldm; [|apply gi_move_prefix; auto].
+    apply ginv_at; [discriminate|..]; auto. intros _ _. unfold pbof. cbn [awake set_cpc set_cl cl_pc c_pc cl mt s0]. rewrite Er. split; [exact G0|].
+    unfold PcGeo. cbn [awake set_cpc set_cl cl_pc c_pc cl mt c_use s0 cl_use]. refine (conj Hh (conj Er (conj _ (conj (conj Ew Eldm) Eo)))). apply useok_set_cpc. exact U0.
   - apply N.ltb_ge in Ew. apply gi_after_wrap; auto.
     pose proof (bg_rp _ _ (gm_b _ _ _ G)). pose proof (bg_t _ _ (gm_b _ _ _ G)). change (mt s0) with (mt s). lia.
 Qed.
@@ -499,7 +552,7 @@ Lemma gi_scan_inuse cfg s j :
 Proof.
   intros M He Ha N Er G Hh Hd Sc. unfold scan_inuse.
   destruct (j <? next (mt s)) eqn:E.
-  - apply ginv_at; auto. intros _ _. unfold pbof. cbn [awake set_cpc set_cl cl_pc c_pc cl mt]. rewrite Er. split; [exact G|].
+  - apply ginv_at; [discriminate|..]; auto. intros _ _. unfold pbof. cbn [awake set_cpc set_cl cl_pc c_pc cl mt]. rewrite Er. split; [exact G|].
     unfold PcGeo. cbn [awake set_cpc set_cl cl_pc c_pc cl mt]. apply N.ltb_lt in E. refine (conj Hh (conj Er (conj (conj Hd E) _))). intros i Hi Hl. apply Sc; auto.
   - apply N.ltb_ge in E. apply gi_after_inuse; auto. left. split; [reflexivity|]. intros i Hi. apply Sc; auto. destruct Hi. lia.
 Qed.
@@ -521,17 +574,17 @@ Qed.
 (* ------------------------------------------------------------------ *)
 (* doneJobID moves on: fewer jobs are live *)
 
-Definition mgf' (m : mtc) := (next m, ended m, rpos m, rcap m, (ihas m, istart m, ifill m), (pstart m, psize m), (target m, ptarget m, wsize m), lap m).
+Definition mgf' (m : mtc) := (next m, ended m, rpos m, rcap m, (ihas m, istart m, ifill m), (pstart m, psize m), (target m, ptarget m, wsize m), lap m, ldm m).
 
 Lemma gm_adv cfg s s' pb :
-  mgf' (mt s') = mgf' (mt s) -> done (mt s) <= done (mt s') -> (forall k, jgf (getj s' k) = jgf (getj s k)) -> GM cfg s pb -> GM cfg s' pb.
+  mgf' (mt s') = mgf' (mt s) -> done (mt s) <= done (mt s') -> sr s' = sr s -> (forall k, jgf (getj s' k) = jgf (getj s k)) -> GM cfg s pb -> GM cfg s' pb.
 Proof.
-  intros Hm Hd Hj [B Jg Mo Fw Fs Pr Ne]. unfold mgf' in Hm.
+  intros Hm Hd Hsr Hj [B Jg Mo Fw Fs Pr Ne Ch Wn Wf]. unfold mgf' in Hm.
   assert (Hm' : next (mt s') = next (mt s) /\ ended (mt s') = ended (mt s) /\ rpos (mt s') = rpos (mt s) /\ rcap (mt s') = rcap (mt s) /\
                 ihas (mt s') = ihas (mt s) /\ istart (mt s') = istart (mt s) /\ ifill (mt s') = ifill (mt s) /\ pstart (mt s') = pstart (mt s) /\
                 psize (mt s') = psize (mt s) /\ target (mt s') = target (mt s) /\ ptarget (mt s') = ptarget (mt s) /\ wsize (mt s') = wsize (mt s) /\
-                lap (mt s') = lap (mt s)) by (inversion Hm; repeat split; (reflexivity || assumption)).
-  destruct Hm' as (En & Ee & Er & Ec & Ei & Eis & Eif & Eps & Epz & Et & Ept & Ew & El).
+                lap (mt s') = lap (mt s) /\ ldm (mt s') = ldm (mt s)) by (inversion Hm; repeat split; (reflexivity || assumption)).
+  destruct Hm' as (En & Ee & Er & Ec & Ei & Eis & Eif & Eps & Epz & Et & Ept & Ew & El & Eld).
   assert (Hin : forall i, inflight s' i -> inflight s i) by (intros i (A & A'); unfold inflight; split; lia).
   assert (Hlv : forall i, live s' pb i -> live s pb i) by (intros i [H|(H1 & H2)]; [left; auto|right; split; congruence]).
   assert (Hf : forall i, let j := J cfg s i in let j' := J cfg s' i in
@@ -541,7 +594,7 @@ Proof.
   { intros i. destruct (Hf i) as (E1 & _ & _ & _ & _ & E6). unfold vs. rewrite E1, E6, Ec. reflexivity. }
   assert (Hvf : VF (mt s') = VF (mt s)) by (unfold VF; rewrite El, Ec, Er; reflexivity).
   constructor.
-  - destruct B as [b1 b2 b3 b4 b5 b6 b7 b8]. constructor; rewrite ?Ec, ?Et, ?Ept, ?Epz, ?Eps, ?Er, ?Ei, ?Eis, ?Eif; auto.
+  - destruct B as [b1 b2 b3 b4 b5 b6 b7 b8 b9]. constructor; rewrite ?Ec, ?Et, ?Ept, ?Epz, ?Eps, ?Er, ?Ei, ?Eis, ?Eif, ?Ee; auto.
     unfold need_cap in *. rewrite Ew, Et, Ept. exact b1.
   - intros i Hi. apply Hlv in Hi. eapply jgeo_ext; [apply Hj|..|apply Jg; exact Hi]; auto.
   - intros i i' Hi Hi' Hlt. apply Hlv in Hi. apply Hlv in Hi'. destruct (Hf i) as (_ & E2 & _). destruct (Hf i') as (_ & E2' & _ & E4' & _).
@@ -551,22 +604,30 @@ Proof.
   - intros Hp. destruct (Pr Hp) as (P1 & P2 & P3). unfold PrepGeo. rewrite En, Ei, El, Er. destruct (Hf (next (mt s))) as (E1 & E2 & _ & _ & _ & E6).
     rewrite E1, E2, E6. auto.
   - rewrite Ee. intros He i Hi. apply Hlv in Hi. destruct (Hf i) as (_ & E2 & _). rewrite E2. apply Ne; auto.
+  - eapply chain_ext; [exact Hlv| |exact Ee|exact El|exact Er|exact Epz|exact Ec|exact Et| |exact Ch].
+    + intros i Hi Hn [X|(X1 & X2)]; apply Hn.
+      * destruct X as (X1 & X2). destruct Hi as [(Y1 & Y2)|(Y1 & Y2)]; [left; split; [lia|rewrite En; exact X2]|left; split; [lia|rewrite En; exact X2]].
+      * right. split; [exact X1|congruence].
+    + intros i _. destruct (Hf i) as (E1 & E2 & _ & E4 & _ & E6). auto.
+  - eapply wg_ext; [exact Hlv|exact Ee|exact Eld|exact El|exact Er|exact Epz|exact Ec|exact Et|exact Ept|exact Ew|exact En|rewrite Hsr; reflexivity|rewrite Hsr; reflexivity| |exact Wn].
+    intros i _. destruct (Hf i) as (E1 & E2 & _ & E4 & _ & E6). auto.
+  - rewrite Eld, Ei, Eis, Et, Hsr. exact Wf.
 Qed.
 
 (* ------------------------------------------------------------------ *)
 (* starting the next call; release; init *)
 
 Lemma gmr_ext cfg s s' :
-  mgf (mt s') = mgf (mt s) -> alldone (mt s') = alldone (mt s) -> ready (mt s') = ready (mt s) -> (forall k, jgf (getj s' k) = jgf (getj s k)) ->
+  mgf (mt s') = mgf (mt s) -> alldone (mt s') = alldone (mt s) -> ready (mt s') = ready (mt s) -> sr s' = sr s -> (forall k, jgf (getj s' k) = jgf (getj s k)) ->
   GMr cfg s -> GMr cfg s'.
-Proof. intros Hm Ha Hr Hj G X. rewrite Hr. eapply gm_ext; [exact Hm|exact Hj|]. apply G. congruence. Qed.
+Proof. intros Hm Ha Hr Hs Hj G X. rewrite Hr. eapply gm_ext; [exact Hm|exact Hs|exact Hj|]. apply G. congruence. Qed.
 
-Ltac gmr_same G := eapply gmr_ext; [..|exact G]; [reflexivity|reflexivity|reflexivity|intros; reflexivity].
+Ltac gmr_same G := eapply gmr_ext; [..|exact G]; [reflexivity|reflexivity|reflexivity|reflexivity|intros; reflexivity].
 
 Lemma gi_done cfg s : PgOk s -> GMr cfg s -> GInv cfg (stop_ops s).
 Proof.
   intros N G. split; [apply pg_stop_ops; exact N|]. intros Ha _. split; [|exact I].
-  unfold pbof. cbn [awake stop_ops set_cl c_pc cl mt]. rewrite orb_false_r. eapply gm_ext; [..|apply G; exact Ha]; [reflexivity|intros; reflexivity].
+  unfold pbof. cbn [awake stop_ops set_cl c_pc cl mt]. rewrite orb_false_r. eapply gm_ext; [..|apply G; exact Ha]; first [reflexivity|intros; reflexivity].
 Qed.
 
 Lemma gi_init_params cfg s : PgOk s -> alldone (mt s) = true -> GInv cfg (init_params s).
@@ -697,7 +758,7 @@ Proof.
   - intros X. cbn [mt set_mt mt_ring alldone ready] in X.
     assert (Ha : alldone (mt s) = false).
     { destruct (alldone (mt s)) eqn:Y; auto. destruct F as (_ & F2). destruct (F2 Y) as (Z & _). congruence. }
-    pose proof (G Ha) as G0. rewrite E2 in G0. cbn [mt set_mt mt_ring ready]. eapply gm_ext; [..|exact G0]; [reflexivity|intros; reflexivity].
+    pose proof (G Ha) as G0. rewrite E2 in G0. cbn [mt set_mt mt_ring ready]. eapply gm_ext; [..|exact G0]; first [reflexivity|intros; reflexivity].
 Qed.
 
 Lemma jgf_upd_flush cs ck fl j : jgf (j_upd_flush cs ck fl j) = jgf j. Proof. reflexivity. Qed.
@@ -725,13 +786,13 @@ Proof.
     eapply mid_ext; [..|exact M1]; first [reflexivity | left; reflexivity].
   - exact F.
   - pg_same N.
-  - intros X. cbn [mt set_mt mt_ring alldone ready] in X |- *. eapply gm_adv; [..|apply G; exact X]; [reflexivity|cbn; lia|].
+  - intros X. cbn [mt set_mt mt_ring alldone ready] in X |- *. eapply gm_adv; [..|apply G; exact X]; [reflexivity|cbn; lia|reflexivity|].
     intros k0. rewrite getj_set_mt, getj_set_gh. apply jgf_set_job. reflexivity.
 Qed.
 
 Lemma gi_relbuf cfg s : PgOk s -> GMr cfg s -> GInv cfg (set_cpc CRelBuf s).
 Proof.
-  intros N G. apply ginv_at; auto. intros Ha _. unfold pbof. cbn [awake set_cpc set_cl cl_pc c_pc cl mt]. rewrite orb_false_r. split; [apply G; exact Ha|exact I].
+  intros N G. apply ginv_at; [discriminate|..]; auto. intros Ha _. unfold pbof. cbn [awake set_cpc set_cl cl_pc c_pc cl mt]. rewrite orb_false_r. split; [apply G; exact Ha|exact I].
 Qed.
 
 Lemma gi_flush_body cfg s : Mid cfg s -> Flow s -> PgOk s -> GMr cfg s -> GInv cfg (flush_body cfg s).
@@ -807,9 +868,9 @@ Qed.
 (* nextJobID++: the prepared job is in flight *)
 
 Lemma gm_post cfg s s' :
-  GM cfg s true -> length (jobs s) = N.to_nat (Mr cfg) -> next (mt s) < done (mt s) + Mr cfg ->
+  GM cfg s true -> length (jobs s) = N.to_nat (Mr cfg) -> next (mt s) < done (mt s) + Mr cfg -> done (mt s) <= next (mt s) -> SrOk s -> sr s' = sr s ->
   mgf' (mt s') = (next (mt s) + 1, ended (mt s), rpos (mt s), rcap (mt s), (ihas (mt s), istart (mt s), ifill (mt s)), (pstart (mt s), psize (mt s)),
-                  (target (mt s), ptarget (mt s), wsize (mt s)), lap (mt s)) ->
+                  (target (mt s), ptarget (mt s), wsize (mt s)), lap (mt s), ldm (mt s)) ->
   done (mt s') = done (mt s) ->
   (forall k, k <> slot cfg (next (mt s)) -> jgf (getj s' k) = jgf (getj s k)) ->
   (jgf (getj s' (slot cfg (next (mt s)))) = jgf (getj s (slot cfg (next (mt s)))) \/
@@ -818,13 +879,13 @@ Lemma gm_post cfg s s' :
     j_lap (getj s' (slot cfg (next (mt s)))) = j_lap (getj s (slot cfg (next (mt s)))))) ->
   GM cfg s' false.
 Proof.
-  intros G Hlen Hlt Hm Hd Hj Hn. pose proof G as [B Jg Mo Fw Fs Pr Ne]. pose proof (cap_bounds _ _ B) as (Hc1 & _).
+  intros G Hlen Hlt Hdn (Hsy & Hsle) Hsr Hm Hd Hj Hn. pose proof G as [B Jg Mo Fw Fs Pr Ne Ch Wn Wf]. pose proof (cap_bounds _ _ B) as (Hc1 & _).
   unfold mgf' in Hm.
   assert (Hm' : next (mt s') = next (mt s) + 1 /\ ended (mt s') = ended (mt s) /\ rpos (mt s') = rpos (mt s) /\ rcap (mt s') = rcap (mt s) /\
                 ihas (mt s') = ihas (mt s) /\ istart (mt s') = istart (mt s) /\ ifill (mt s') = ifill (mt s) /\ pstart (mt s') = pstart (mt s) /\
                 psize (mt s') = psize (mt s) /\ target (mt s') = target (mt s) /\ ptarget (mt s') = ptarget (mt s) /\ wsize (mt s') = wsize (mt s) /\
-                lap (mt s') = lap (mt s)) by (inversion Hm; repeat split; (reflexivity || assumption)).
-  destruct Hm' as (En & Ee & Er & Ec & Ei & Eis & Eif & Eps & Epz & Et & Ept & Ew & El).
+                lap (mt s') = lap (mt s) /\ ldm (mt s') = ldm (mt s)) by (inversion Hm; repeat split; (reflexivity || assumption)).
+  destruct Hm' as (En & Ee & Er & Ec & Ei & Eis & Eif & Eps & Epz & Et & Ept & Ew & El & Eld).
   destruct (Pr eq_refl) as (P1 & P2 & P3).
   set (kn := slot cfg (next (mt s))) in *.
   assert (Hlv : forall i, inflight s' i -> live s true i).
@@ -840,7 +901,7 @@ Proof.
     - destruct (jgf_fields _ _ (Hold i Hi)) as (_ & E2 & _ & E4 & _ & E6). auto.
     - unfold J. fold kn. destruct Hn as [E|(E1 & E2 & E3 & E4)]; [destruct (jgf_fields _ _ E) as (_ & E2 & _ & E4 & _ & E6); auto|]. rewrite E1, E2. auto. }
   constructor.
-  - destruct B as [b1 b2 b3 b4 b5 b6 b7 b8]. constructor; rewrite ?Ec, ?Et, ?Ept, ?Epz, ?Eps, ?Er, ?Ei, ?Eis, ?Eif; auto.
+  - destruct B as [b1 b2 b3 b4 b5 b6 b7 b8 b9]. constructor; rewrite ?Ec, ?Et, ?Ept, ?Epz, ?Eps, ?Er, ?Ei, ?Eis, ?Eif, ?Ee; auto.
     unfold need_cap in *. rewrite Ew, Et, Ept. exact b1.
   - intros i Hi. apply live_false in Hi. pose proof (Hlv i Hi) as Hl. destruct (Hsz i Hl) as (S1 & S2 & S3). pose proof (Jg i Hl) as [A Bq C D F Gh H].
     constructor; rewrite ?S1, ?S2, ?S3, ?Et, ?Ept, ?El, ?Ec, ?Hvf, ?Epz; auto.
@@ -862,14 +923,37 @@ Proof.
   - unfold Fstrong. rewrite Ei, P1. discriminate.
   - discriminate.
   - rewrite Ee. intros He i Hi. apply live_false in Hi. pose proof (Hlv i Hi) as Hl. destruct (Hsz i Hl) as (S1 & _). rewrite S1. apply Ne; auto.
+  - (* Chain *)
+    unfold Chain. rewrite Ee. intros He. destruct (Ch He) as (C1 & C2).
+    assert (Hfe : forall i, live s true i -> jgf (J cfg s' i) = jgf (J cfg s i)) by (intros i Li; apply Hf; auto; left; apply Ne; auto).
+    assert (Hcv : forall i, live s true i -> inflight s' i).
+    { intros i [(A & A')|(_ & ->)]; split; lia. }
+    split.
+    + intros i Hi Hi'. apply live_false in Hi. apply live_false in Hi'. pose proof (Hlv i Hi) as L. pose proof (Hlv (i + 1) Hi') as L'.
+      destruct (jgf_fields _ _ (Hfe i L)) as (A1 & A2 & _ & A4 & _ & A6). destruct (jgf_fields _ _ (Hfe (i + 1) L')) as (B1 & B2 & _ & B4 & _ & B6).
+      unfold jend. rewrite A1, A2, A6. eapply cont_ext; [exact Ec|exact Et|exact B6|exact B1|exact B4|]. apply C1; auto.
+    + intros i Hi Hn'. apply live_false in Hi. pose proof (Hlv i Hi) as L.
+      destruct (jgf_fields _ _ (Hfe i L)) as (A1 & A2 & _ & A4 & _ & A6).
+      unfold jend. rewrite A1, A2, A6. eapply contc_ext; [exact El|exact Er|exact Epz|exact Ec|exact Et|]. apply C2; auto.
+      intros X. apply Hn'. apply live_false. apply Hcv. exact X.
+  - (* WG *)
+    unfold WG in *. rewrite Hsr, Ee, Eld, Ew, El, Ec, Et, Ept, En. intros Hl He. specialize (Wn Hl He). destruct (s_w (sr s)) as [[[el eh] pl] ph].
+    destruct Wn as (W1 & W2 & W3 & W4). split; [exact W1|]. split; [exact W2|]. split; [exact W3|].
+    destruct W4 as [W4|(Lp & L1 & L2 & L3 & L4 & L5)]; [left; exact W4|right]. exists Lp. split; [exact L1|]. split; [exact L2|]. split; [exact L3|]. split.
+    + intros Hi. apply live_false in Hi. pose proof (Hlv _ Hi) as L.
+      assert (Hsz0 : 0 < j_size (J cfg s (s_next (sr s)))) by (apply Ne; auto).
+      destruct (jgf_fields _ _ (Hf _ L (or_introl Hsz0))) as (B1 & B2 & _ & B4 & _ & B6).
+      eapply cont_ext; [exact Ec|exact Et|exact B6|exact B1|exact B4|]. apply L4; auto.
+    + intros _ Hx. exfalso. lia.
+  - rewrite Ei, P1. intros _ X. discriminate.
 Qed.
 
 (* a fresh frame *)
 Lemma gm_fresh cfg s :
   done (mt s) = 0 -> next (mt s) = 0 -> rpos (mt s) = 0 -> ihas (mt s) = false -> ifill (mt s) = 0 -> psize (mt s) = 0 ->
-  need_cap cfg (mt s) <= rcap (mt s) -> 0 < target (mt s) -> ptarget (mt s) <= target (mt s) -> GM cfg s false.
+  need_cap cfg (mt s) <= rcap (mt s) -> 0 < target (mt s) -> ptarget (mt s) <= target (mt s) -> (ldm (mt s) = true -> s_w (sr s) = win0) -> GM cfg s false.
 Proof.
-  intros Hd Hn Hr Hh Hf Hp Hc Ht Hpt.
+  intros Hd Hn Hr Hh Hf Hp Hc Ht Hpt Hw0.
   assert (Hno : forall i, ~ live s false i) by (intros i [(A & A')|(X & _)]; [lia|discriminate]).
   constructor.
   - constructor; auto; try lia; try congruence.
@@ -879,22 +963,25 @@ Proof.
   - intros X. congruence.
   - discriminate.
   - intros _ i Hi. destruct (Hno i Hi).
+  - intros _. split; intros i Hi; destruct (Hno i Hi).
+  - unfold WG. intros Hl _. rewrite (Hw0 Hl). unfold win0. split; [lia|]. split; [lia|]. split; [lia|]. left. split; reflexivity.
+  - intros _ X. congruence.
 Qed.
 
 Lemma gi_sleep cfg s p' : GInv cfg s -> awake p' = awake (c_pc (cl s)) -> GInv cfg (set_cpc p' s).
 Proof.
-  intros (N & G) E. split; [apply pg_pc; exact N|]. cbn [mt cl set_cpc set_cl cl_pc c_pc]. rewrite E. intros Ha Hr. destruct (G Ha Hr) as (G1 & P1).
-  split.
-  - unfold pbof in *. cbn [mt cl set_cpc set_cl cl_pc c_pc]. rewrite E. eapply gm_ext; [..|exact G1]; [reflexivity|intros; reflexivity].
-  - unfold PcGeo in *. cbn [mt cl set_cpc set_cl cl_pc c_pc c_use]. rewrite E. destruct (awake (c_pc (cl s))); auto.
+  intros (N & G) E. split; [apply pg_pc; exact N|].
+  unfold pbof, PcGeo in *. cbn [mt cl set_cpc set_cl cl_pc c_pc c_use]. rewrite E. intros Ha Hr. specialize (G Ha Hr).
+  destruct (awake (c_pc (cl s))); try exact G;
+    (destruct G as (G1 & P1); split; [eapply gm_ext; [..|exact G1]; first [reflexivity|intros; reflexivity]|exact P1]).
 Qed.
 
 (* ------------------------------------------------------------------ *)
 (* every step of the application thread *)
 
-Lemma gi_caller_step cfg w s s' : TInv cfg s -> GInv cfg s -> caller_step cfg w s = Some s' -> GInv cfg s'.
+Lemma gi_caller_step cfg w s s' : TInv cfg s -> SrOk s -> GInv cfg s -> caller_step cfg w s = Some s' -> GInv cfg s'.
 Proof.
-  intros TI GI0 H. pose proof GI0 as (N & GI). pose proof TI as (K & A). pose proof (k_pc _ _ K) as P. unfold PcInv in P.
+  intros TI SR GI0 H. pose proof GI0 as (N & GI). pose proof TI as (K & A). pose proof (k_pc _ _ K) as P. unfold PcInv in P.
   destruct P as (PA & PB & PC & PD & PE & PF & PG). pose proof A as (AT & A1 & A2 & A3 & A4 & A5).
   unfold caller_step in H. cbn zeta in H.
   destruct (c_pc (cl s)) eqn:Epc; try discriminate; unfold pbof, PcGeo in GI; rewrite Epc in GI; cbn [awake relphase qpc inpc] in *.
@@ -918,7 +1005,7 @@ Proof.
     { destruct (ended (mt s)) eqn:X; auto. assert (0 < c_in (cl s)) by (apply A3; reflexivity). destruct (A1 eq_refl); [lia|discriminate]. }
     assert (Ha : alldone (mt s) = false).
     { destruct (alldone (mt s)) eqn:X; auto. destruct (A2 eq_refl) as [?|[?|(? & _)]]; discriminate. }
-    destruct (GI Ha eq_refl) as (G & Hh & Er & U & Hw & Ho). rewrite Er in G. cbn [orb] in G.
+    destruct (GI Ha eq_refl) as (G & Hh & Er & U & (Hw & Hldm) & Ho). rewrite Er in G. cbn [orb] in G.
     destruct (overlap_win _ _); inv_some H; [apply gi_sleep; [exact GI0|rewrite Epc; reflexivity]|apply gi_move_prefix; auto].
   - (* CLdm2 *)
     assert (M : Mid cfg s) by (apply mid_of_tinv; auto; rewrite Epc; cbn; auto; discriminate).
@@ -926,18 +1013,19 @@ Proof.
     { destruct (ended (mt s)) eqn:X; auto. assert (0 < c_in (cl s)) by (apply A3; reflexivity). destruct (A1 eq_refl); [lia|discriminate]. }
     assert (Ha : alldone (mt s) = false).
     { destruct (alldone (mt s)) eqn:X; auto. destruct (A2 eq_refl) as [?|[?|(? & _)]]; discriminate. }
-    destruct (GI Ha eq_refl) as (G & Hh & Er & U & Hw & Ho). rewrite Er in G. cbn [orb] in G.
-    destruct (overlap_win _ _); inv_some H; [apply gi_sleep; [exact GI0|rewrite Epc; reflexivity]|apply gi_hand_out; auto].
-    pose proof (bg_t _ _ (gm_b _ _ _ G)). lia.
+    destruct (GI Ha eq_refl) as (G & Hh & Er & U & (Hw & Hldm) & Ho). rewrite Er in G. cbn [orb] in G.
+    destruct (overlap_win _ _) eqn:Eov; inv_some H; [apply gi_sleep; [exact GI0|rewrite Epc; reflexivity]|apply gi_hand_out; auto].
+    + pose proof (bg_t _ _ (gm_b _ _ _ G)). lia.
+    + intros _. rewrite <- (proj1 SR). exact Eov.
   - (* CGetBuf *)
     destruct (PB eq_refl) as (P0 & Pd & Pr & Psz & Pla & Pen). pose proof P0 as (Hlt & Hid & _).
     assert (Ha : alldone (mt s) = false).
     { destruct (alldone (mt s)) eqn:X; auto. destruct (A2 eq_refl) as [?|[?|(? & _)]]; discriminate. }
     destruct (GI Ha eq_refl) as (G & _). rewrite orb_true_r in G.
     assert (Hkl : (slot cfg (next (mt s)) < length (jobs s))%nat) by (rewrite (k_len _ _ K); apply slot_lt).
-    inv_some H. apply ginv_at; [pg_same N|]. intros _ _. unfold pbof. cbn [awake set_cpc set_cl cl_pc c_pc cl mt set_mt mt_ring ready]. rewrite Pr. cbn [orb].
+    inv_some H. apply ginv_at; [discriminate|..]; [pg_same N|]. intros _ _. unfold pbof. cbn [awake set_cpc set_cl cl_pc c_pc cl mt set_mt mt_ring ready]. rewrite Pr. cbn [orb].
     split; [|exact I].
-    eapply (gm_post cfg s); [exact G|exact (k_len _ _ K)|exact Hlt|reflexivity|reflexivity| |].
+    eapply (gm_post cfg s); [exact G|exact (k_len _ _ K)|exact Hlt|exact (proj1 (k_rng _ _ K))|exact SR|reflexivity|reflexivity|reflexivity| |].
     + intros k Hk. rewrite getj_set_mt. rewrite getj_set_job_neq by auto. reflexivity.
     + right. rewrite getj_set_mt, getj_set_job_eq by exact Hkl. split; [exact Psz|]. match goal with |- context[if ?b then _ else _] => destruct b end; cbn; repeat split; try reflexivity; exact Psz.
   - (* CTryAdd *)
@@ -946,11 +1034,11 @@ Proof.
     { destruct (alldone (mt s)) eqn:X; auto. destruct (A2 eq_refl) as [?|[?|(? & _)]]; discriminate. }
     destruct (GI Ha eq_refl) as (G & _). rewrite orb_true_r in G.
     destruct (Nat.eqb (busy (pl s)) (c_nbw cfg) || _); inv_some H.
-    + apply ginv_at; [pg_same N|]. intros _ _. unfold pbof. cbn [awake set_cpc set_cl cl_pc c_pc cl mt set_mt mt_ring ready orb].
-      split; [|exact I]. eapply gm_ext; [..|exact G]; [reflexivity|intros; reflexivity].
-    + apply ginv_at; [pg_same N|]. intros _ _. unfold pbof. cbn [awake set_cpc set_cl cl_pc c_pc cl mt set_mt mt_ring ready orb].
+    + apply ginv_at; [discriminate|..]; [pg_same N|]. intros _ _. unfold pbof. cbn [awake set_cpc set_cl cl_pc c_pc cl mt set_mt mt_ring ready orb].
+      split; [|exact I]. eapply gm_ext; [..|exact G]; first [reflexivity|intros; reflexivity].
+    + apply ginv_at; [discriminate|..]; [pg_same N|]. intros _ _. unfold pbof. cbn [awake set_cpc set_cl cl_pc c_pc cl mt set_mt mt_ring ready orb].
       split; [|exact I].
-      eapply (gm_post cfg s); [exact G|exact (k_len _ _ K)|exact Hlt|reflexivity|reflexivity| |]; [intros; reflexivity|left; reflexivity].
+      eapply (gm_post cfg s); [exact G|exact (k_len _ _ K)|exact Hlt|exact (proj1 (k_rng _ _ K))|exact SR|reflexivity|reflexivity|reflexivity| |]; [intros; reflexivity|left; reflexivity].
   - (* CFlush *)
     assert (M : Mid cfg s) by (apply mid_of_tinv; auto; rewrite Epc; cbn; auto; discriminate).
     assert (F : Flow s) by (apply flow_of_ainv; auto; rewrite Epc; reflexivity).
@@ -965,7 +1053,7 @@ Proof.
     assert (M0 : Mid cfg s0) by mid_same M.
     apply gi_complete_job; [exact M0|exact F|exact PD|exact E1|exact E2|exact E4| |pg_same N|].
     + apply (not_owned_fin cfg s0); auto; [apply M0|split; [reflexivity|exact PD]].
-    + intros Ha. destruct (GI Ha eq_refl) as (G & _). rewrite orb_false_r in G. eapply gm_ext; [..|exact G]; [reflexivity|intros; reflexivity].
+    + intros Ha. destruct (GI Ha eq_refl) as (G & _). rewrite orb_false_r in G. eapply gm_ext; [..|exact G]; first [reflexivity|intros; reflexivity].
   - (* CWait *)
     unfold jslot in H. destruct (negb _); inv_some H; [apply ginv_rel; [apply pg_pc; exact N|reflexivity]|apply gi_wait_all; pg_same N].
   - (* CRelAll *)
@@ -983,16 +1071,22 @@ Proof.
       - exact AT.
       - cbn. discriminate. }
     assert (N1 : PgOk s1) by pg_same N.
-    assert (G1 : GM cfg s1 false).
-    { destruct N as (N0 & _). destruct AT as (T0 & _).
-      apply gm_fresh; try reflexivity; cbn [mt s1 set_sr set_mt rcap target ptarget]; auto.
-      unfold need_cap. cbn [wsize target ptarget]. fold (need_cap cfg (mt s)). destruct (rcap (mt s) <? need_cap cfg (mt s)) eqn:X; [lia|apply N.ltb_ge in X; exact X]. }
-    destruct (ldm (mt s)); inv_some H.
-    + apply ginv_at; [exact N1|]. intros _ _. split; [exact G1|exact I].
-    + apply gi_finish_ok; [exact M1|intros X; discriminate|exact N1|intros _; exact G1].
+    assert (Hcap : need_cap cfg (mt s1) <= rcap (mt s1)).
+    { cbn [mt s1 set_sr set_mt rcap]. unfold need_cap. cbn [wsize target ptarget]. fold (need_cap cfg (mt s)).
+      destruct (rcap (mt s) <? need_cap cfg (mt s)) eqn:X; [lia|apply N.ltb_ge in X; exact X]. }
+    destruct (ldm (mt s)) eqn:Eldm; inv_some H.
+    + (* ZSTDMT_setNbSeq and the reset of the LDM window are still to come *)
+      split; [apply pg_pc; exact N1|]. intros _ _. cbn [awake set_cpc set_cl cl_pc c_pc cl].
+      unfold Fresh. cbn [mt sr s1 set_cpc set_cl set_sr set_mt done next ready ended rpos ihas ifill psize s_next]. repeat split; auto.
+    + assert (G1 : GM cfg s1 false).
+      { destruct N as (N0 & _). destruct AT as (T0 & _).
+        apply gm_fresh; try reflexivity; cbn [mt s1 set_sr set_mt rcap target ptarget ldm]; auto. intros X. rewrite ?Eldm in X. discriminate. }
+      apply gi_finish_ok; [exact M1|intros X; discriminate|exact N1|intros _; exact G1].
   - (* CInitSeq *)
     assert (M : Mid cfg s) by (apply mid_of_tinv; auto; rewrite Epc; cbn; auto; discriminate).
     assert (F : Flow s) by (apply flow_of_ainv; auto; rewrite Epc; reflexivity).
     inv_some H. apply gi_finish_ok; [mid_same M|apply flow_flow0; exact F|pg_same N|].
-    intros Ha. destruct (GI Ha eq_refl) as (G & _). rewrite orb_false_r in G. eapply gm_ext; [..|exact G]; [reflexivity|intros; reflexivity].
+    intros Ha. destruct (GI Ha eq_refl) as (F1 & F2 & F3 & F4 & F5 & F6 & F7 & F8 & F9 & F10).
+    destruct N as (N0 & _). destruct AT as (T0 & _).
+    cbn [mt set_sr set_pl ready]. rewrite F3. apply gm_fresh; auto.
 Qed.
